@@ -202,9 +202,9 @@ theorem step_private (me : Bool) (w : World) (c : HCall) :
   show _ = w.set me (step Cfg.allPrivate true (emb (w.get me)) c).a
   unfold step
   simp only [emb_get]
-  by_cases herr : (w.get me).err.isSome = true
+  by_cases herr : ((w.get me).err.isSome && !c.isDocStart) = true
   · simp only [herr, ↓reduceIte, emb_a, set_get]
-  · simp only [herr, ↓reduceIte]
+  · simp only [herr]
     cases c with
     | docStart id notes => cases me <;> fin
     | network id notes temp =>
